@@ -605,3 +605,17 @@ def _m_flat_index(mod):
         return False
 
     return mod if replace_in_func(mod, "Generator.get_indexed_symbol", edit) else None
+
+
+@SPEC.mutant("if-expression branch behind a literal false is skipped", GEN, "R23.10", "expressions translated")
+def _m_dead_branch(mod):
+    def edit(fn):
+        for lp in ast.walk(fn):
+            if isinstance(lp, ast.For):
+                for i, st in enumerate(lp.body):
+                    if isinstance(st, ast.Assign) and "tree.conditions" in norm(st.value):
+                        lp.body.insert(i + 1, ast.parse("if %s is False:\n    continue" % norm(st.targets[0])).body[0])
+                        return True
+        return False
+
+    return mod if replace_in_func(mod, "Generator.exitIfExpression", edit) else None
